@@ -56,6 +56,7 @@ type vfC04TcpOut struct {
 	Hit      bool
 	Err      string
 	Deadlock string
+	Hung     string
 	Leaked   []string
 }
 
@@ -250,15 +251,16 @@ wait:
 	led.Audit("l", true, vfc04.ReadUsage(rmL), 0)
 }
 
-func vfC04TcpRun(t *testing.T, plan vfC04TcpPlan, tr *vfh.Trace) (out vfC04TcpOut) {
-	defer func() {
-		if r := recover(); r != nil {
-			out.Deadlock = fmt.Sprint(r)
-			tr.Emit("deadlock", "msg", out.Deadlock)
-		}
-	}()
-	synctest.Test(t, func(t *testing.T) { vfC04TcpScenario(t, plan, tr, &out) })
-	return out
+func vfC04TcpRun(t *testing.T, plan vfC04TcpPlan, tr *vfh.Trace) vfC04TcpOut {
+	out := &vfC04TcpOut{}
+	dl, hung := vfc04.RunBubble(t, 25*time.Second, func(t *testing.T) { vfC04TcpScenario(t, plan, tr, out) })
+	if dl != "" {
+		out.Deadlock = dl
+		tr.Emit("deadlock", "msg", dl)
+	}
+	o := *out
+	o.Hung = hung
+	return o
 }
 
 func TestVerifC04Tcp(t *testing.T) {
@@ -295,12 +297,15 @@ func TestVerifC04Tcp(t *testing.T) {
 		}
 		if path != "" {
 			if err := tr.AppendTo(path, map[string]any{"family": "tcp", "cfg": "noise/early/nopsk", "plan": plan.String(), "kind": plan.Kind,
-				"side": "d", "k": plan.K, "hit": out.Hit, "stage": "dial", "p": plan}); err != nil {
+				"side": "d", "k": plan.K, "hit": out.Hit, "stage": "dial", "p": plan, "hang": out.Hung}); err != nil {
 				t.Fatal(err)
 			}
 		}
-		if out.Deadlock != "" || len(out.Leaked) > 0 {
-			res.Sample(map[string]any{"plan": plan.String(), "deadlock": out.Deadlock, "leaked": out.Leaked})
+		if out.Deadlock != "" || len(out.Leaked) > 0 || out.Hung != "" {
+			res.Sample(map[string]any{"plan": plan.String(), "deadlock": out.Deadlock, "leaked": out.Leaked, "hung": out.Hung})
+		}
+		if out.Hung != "" {
+			res.Inc("hangs", 1)
 		}
 		return out
 	}
